@@ -251,7 +251,7 @@ impl<
                     .filter_map(|(k, v)| {
                         self.expiration(k)
                             .and_then(|t| {
-                                if t.is_expired() {
+                                if !t.is_zero() && t.is_expired() {
                                     #[cfg(transparencies_stretto_verif)]
                                     crate::verif::sched::point("cleanup:after_expiry_check");
                                     let cost = policy.cost(k);
@@ -290,7 +290,7 @@ impl<
             for (k, v) in items.iter() {
                 let expiration = self.expiration(k);
                 if let Some(t) = expiration {
-                    if t.is_expired() {
+                    if !t.is_zero() && t.is_expired() {
                         #[cfg(transparencies_stretto_verif)]
                         crate::verif::sched::point("cleanup:after_expiry_check");
                         let cost = policy.cost(k);
